@@ -5,6 +5,7 @@ import (
 	"os"
 	"testing"
 
+	"github.com/vipnode/vipnode/v2/pool/store"
 	"verifharness/vlib"
 )
 
@@ -33,3 +34,5 @@ func finish(t *testing.T, e *vlib.Evidence) {
 		t.Fail()
 	}
 }
+
+func storeID(s string) store.NodeID { return store.NodeID(s) }
